@@ -15,6 +15,7 @@ import Proofs.Lemmas.C03Total
 import Proofs.Lemmas.C03Decimal
 import Proofs.Lemmas.C03DecFB
 import Proofs.Lemmas.C03Mirror
+import Proofs.Lemmas.C03TrMirror
 import Model.Fmt.Reader
 
 namespace C03
@@ -490,32 +491,93 @@ theorem decSet_correct (s : Bytes) (hu : underscoreOK s = true) :
         (p.mant ≠ 0 → d.d ≠ [] ∧ dval d = valueOf p)) :=
   decSet_spec s hu
 
+/-! ### truncating runs: the 800-digit buffer overflows and `trunc` is set -/
+
+/-- **shift_floor_correct** — what ONE buffer-limited shift does (`rightShift` / `leftShift`, at
+most 60 bits) when digits fall off the 800-digit buffer: the result is the exact quotient/product
+cut to the buffer — `value(d') ≤ value(d)·2^±k < value(d') + 10^(dp' − 800)` — and `trunc` is
+set exactly when the step was inexact (unchanged otherwise). -/
+theorem shift_floor_correct (a : Dc) (k : Nat) (hk1 : 1 ≤ k) (hk : k ≤ 60) (hwf : WF a) (hne : a.d ≠ []) :
+    StepRes a (rightShift a k) (1 / (2 : ℚ) ^ k) ∧ StepRes a (leftShift a k) ((2 : ℚ) ^ k) :=
+  ⟨rightShift_floor a k hk1 hk hwf hne, leftShift_floor a k hk1 hk hwf hne⟩
+
+/-- **shift_follows_correct** — a truncating shift keeps FOLLOWING the true value: the decimal
+stays at or below it (equal as long as `trunc` is false, strictly below once it is true), and
+no dyadic point `I·2^q` (I ≤ 2^55, q ≥ −1075 in the input's frame: every float64, every midpoint
+between neighbours, every power of two the loops compare with) ever comes to lie between the
+decimal and the true value. (The decimal may drift several units of the 800th digit below the
+true value over several shifts; what is exact is the ORDER against those points, which have at
+most ~770 significant digits next to a decimal of comparable size.) -/
+theorem shift_follows_correct (a : Dc) (k : Int) (hk : k ≠ 0) (hk1 : -120 ≤ k) (hk2 : k ≤ 120) (hwf : WF a)
+    (hne : a.d ≠ []) (V : ℚ) (K : Int) (h : Follows a V K) (hdp : a.dp ≤ 700)
+    (hmag : (0 ≤ K ∧ 0 ≤ K + k) ∨ (1 / (2 : ℚ) ^ 1062 ≤ dval a ∧ 1 / (2 : ℚ) ^ 1062 ≤ dval a * (2 : ℚ) ^ k)) :
+    ShiftOut a (a.shift k) V K k :=
+  shift_follows a k hk hk1 hk2 hwf hne V K h hdp hmag
+
+/-- **roundedInteger_trunc_correct** — `RoundedInteger` on a decimal that follows `W` (so with
+`trunc` set it lies strictly below `W`, with no half-integer in between) returns the
+round-half-even of `W` itself: with `trunc` the code rounds an exact-looking half UP, which is
+right because the true value is strictly above it. -/
+theorem roundedInteger_trunc_correct (d3 : Dc) (hwf : WF d3) (htrim : Trimmed d3) (hdp : d3.dp ≤ 19)
+    (W : ℚ) (K3 : Int) (hK : K3 ≤ 1074) (hf : Follows d3 W K3) (hWlt : W < (2 : ℚ) ^ 53)
+    (wn wd : Nat) (hwd : 0 < wd) (hW : (wn : ℚ) / wd = W) :
+    roundedInteger { d := d3.d, dp := d3.dp, trunc := d3.trunc } = F64.rne wn wd :=
+  roundedInteger_follow d3 hwf htrim hdp W K3 hK hf hWlt wn wd hwd hW
+
+/-- **floatBits_correct_trunc** — `decimal.floatBits` returns the correctly rounded float64 of
+the decimal's exact value with the range rule on EVERY run, truncating or not (the run
+condition of `floatBits_correct'` is gone). -/
+theorem floatBits_correct_trunc (d0 : Dc) (hwf : WF d0) (ht0 : d0.trunc = false) :
+    (floatBits d0).toExcept =
+      if d0.d = [] then .ok (F64.zero d0.neg)
+      else evalFrac d0.neg (decFrac (valOf 10 d0.d) (d0.dp - d0.d.length)).1 (decFrac (valOf 10 d0.d) (d0.dp - d0.d.length)).2 :=
+  floatBits_correct_all d0 hwf ht0
+
+/-- **decSet_trunc_correct** — `decimal.set` on ANY recognised decimal text outside the class of
+finding N3 (at most 800 significant digits before the point, any number after it): the decimal
+it builds is the text's value cut to the 800-digit buffer — `value(d) ≤ V < value(d) +
+10^(dp − 800)` — with `trunc` set exactly when a non-zero digit was cut. -/
+theorem decSet_trunc_correct (s : Bytes) (hu : underscoreOK s = true) :
+    ∀ p, recognise s = some p → p.hex = false → (mantDigits s).1.length ≤ 800 → expLit s < 10000 →
+      ∃ d, decSet s = some d ∧ WF d ∧ d.neg = p.neg ∧ (p.mant = 0 → d.d = [] ∧ d.trunc = false) ∧
+        (p.mant ≠ 0 → d.d ≠ [] ∧ dval d ≤ valueOf p ∧ valueOf p < dval d + (10 : ℚ) ^ (d.dp - 800) ∧
+          (d.trunc = false → dval d = valueOf p) ∧ (d.trunc = true → dval d < valueOf p)) :=
+  decSet_specT s hu
+
 /-- **slowPath_mirror_correct** — the mirrored multiprecision slow path `d.set(s); d.floatBits()`
 computes what the specification says (recogniser verdict; correctly rounded value; range rule)
-whenever the run drops no non-zero digit (`NoTrunc`). -/
+on every run, truncating or not, for every text outside the class of finding N3. -/
 theorem slowPath_mirror_correct (s : Bytes) (hu : underscoreOK s = true) (hlit : expLit s < 10000)
-    (hmant : ∀ p, recognise s = some p → p.mant < 10 ^ 800) (hnt : NoTrunc s) :
+    (hN3 : inClassN3 s = false) :
     (slowPathMirror s).toExcept =
       match recognise s with
       | none => .error .syntax
       | some p => if p.hex then .error .syntax else p.eval :=
-  slowPathMirror_spec s hu hlit hmant hnt
+  slowPathMirror_all s hu hlit hN3
 
 /-- **parseFloat_mirror_correct** — the FULLY MIRRORED model of `bytesconv.ParseFloat(s, 64)`, with
 no specification inside (underscore check, special values, `readFloat`, `atofHex`,
 `atof64exact`, `decimal.set`, `Shift`/`leftShift`/`rightShift` with the cheat table,
-`floatBits`, `RoundedInteger`), equals `parseFloatSpec` — same bits or same error — for every
-byte string with an exponent literal below 10000, at most 800 significant mantissa digits, and
-a slow-path run that drops no non-zero digit. The driver runs this model next to the real
-`ParseFloat` on every case (`pfm=`), so the correspondence ties it bit for bit. -/
-theorem parseFloat_mirror_correct (s : Bytes) (hlit : expLit s < 10000)
+`floatBits`, `RoundedInteger`), equals `parseFloatSpec` — same bits or same error — for EVERY
+byte string with an exponent literal below 10000 that is not in the class of finding N3: the same
+two hypotheses as `parseFloat_correct`. No condition on the run (the shifts may overflow the
+800-digit buffer and set `trunc`), none on the number of digits (`set` itself may truncate).
+The driver runs this model next to the real `ParseFloat` on every case (`pfm=`), so the
+correspondence ties it bit for bit. -/
+theorem parseFloat_mirror_correct (s : Bytes) (hlit : expLit s < 10000) (hN3 : inClassN3 s = false) :
+    (parseFloatMirror s).toExcept = parseFloatSpec s :=
+  parseFloatMirror_all s hlit hN3
+
+/-- the round-3 statement (at most 800 significant digits, runs without truncation only), kept
+for reference -/
+theorem parseFloat_mirror_correct_partial (s : Bytes) (hlit : expLit s < 10000)
     (hmant : ∀ p, recognise s = some p → p.mant < 10 ^ 800) (hnt : NoTrunc s) :
     (parseFloatMirror s).toExcept = parseFloatSpec s :=
   parseFloatMirror_eq_spec s hlit hmant hnt
 
 /-- … and the reader's `atof` on top of it -/
 theorem reader_atof_mirror_correct (x : Bytes) (hne : x ≠ []) (hlit : expLit x < 10000)
-    (hmant : ∀ p, recognise x = some p → p.mant < 10 ^ 800) (hnt : NoTrunc x) :
+    (hN3 : inClassN3 x = false) :
     (readerAtofMirror x).toExcept = parseFloatSpec x := by
   cases h : atofLoop x 0 with
   | some v =>
@@ -525,7 +587,7 @@ theorem reader_atof_mirror_correct (x : Bytes) (hne : x ≠ []) (hlit : expLit x
   | none =>
     unfold readerAtofMirror
     rw [h]
-    exact parseFloat_mirror_correct x hlit hmant hnt
+    exact parseFloat_mirror_correct x hlit hN3
 
 /-! ## number errors become per-line syntax errors (reader.go:265-293) -/
 
